@@ -275,6 +275,18 @@ impl Impl {
                     Err(e) => format!("err-other {:?}", e.kind()),
                 }
             }
+            ["vi.decr", h, k] => {
+                // a reader that hands out at most k bytes per read() call
+                struct Drip<'a> { data: &'a [u8], k: usize }
+                impl<'a> std::io::Read for Drip<'a> { fn read(&mut self, buf: &mut [u8]) -> std::io::Result<usize> { let n = self.k.min(buf.len()).min(self.data.len()); buf[..n].copy_from_slice(&self.data[..n]); self.data = &self.data[n..]; Ok(n) } }
+                let bs = unhex(h);
+                let mut rd = Drip { data: &bs[..], k: k.parse::<usize>().ok()?.max(1) };
+                match VarInt::read(&mut rd) {
+                    Ok(v) => format!("ok {} {}", u32::from(v), rd.data.len()),
+                    Err(e) if e.kind() == ErrorKind::UnexpectedEof => "eof".into(),
+                    Err(e) => format!("err-other {:?}", e.kind()),
+                }
+            }
             ["vi.enc", n] => {
                 let v: u32 = n.parse().ok()?;
                 match VarInt::try_from(v) {
